@@ -295,6 +295,26 @@ REMOVERS = {"remove_unused_variable", "remove_empty_do", "remove_types", "remove
             "filter_after_early_return", "remove_assertions", "remove_debug_profiling", "remove_nil_declaration"}
 
 
+KEY_COMPOUND_MULTILINE = "compound-assignment-duplicates-multi-line-target:t[[==[<LF>]==]]*=1"
+
+
+def compound_target_spans_lines(src):
+    """a compound assignment whose target holds a token that spans lines (a long / continued string used as
+    key): the lowering writes the target twice"""
+    try:
+        toks, _ = L.lex(src.encode("utf-8"))
+    except L.LexError:
+        return False
+    for j, t in enumerate(toks):
+        if t.text in COMPOUND_OP_TOKENS:
+            k = j - 1
+            while k >= 0 and j - k <= 16 and toks[k].text not in L.STATEMENT_KEYWORDS and toks[k].text != b";":
+                if b"\n" in toks[k].text:
+                    return True
+                k -= 1
+    return False
+
+
 KEY_COMPOUND_KEY = "compound-assignment-index-key-hoisted:--_c<LF>t[g()]*=M2"
 COMPOUND_OP_TOKENS = {b"+=", b"-=", b"*=", b"/=", b"//=", b"%=", b"^=", b"..="}
 
@@ -357,10 +377,12 @@ def compound_index_key_hoisted(src, spaces_removed):
     return False
 
 
-def transferred_comments_out_of_order(trace):
-    """signature of the recorded comment-transfer defect in the write requests: a token whose leading trivia
-    holds line breaks made by Block::remove_statement (owned white space of line feeds only) and whose
-    original trivia are no longer in source order"""
+def transferred_comments_out_of_order(trace, src=""):
+    """signature of the recorded comment-transfer defect in the write requests: a token whose leading trivia holds
+    line breaks made by Block::remove_statement (owned white space of line feeds only) and whose original trivia
+    are no longer in source order, or include a comment spanning lines that is followed by further trivia (its
+    height is ignored when the gaps are re-created)"""
+    data = src.encode("utf-8")
     for e in trace:
         if e["t"] != "tok":
             continue
@@ -370,6 +392,9 @@ def transferred_comments_out_of_order(trace):
         starts = [p[1] for _, p in e["l"] if p[0] == 0]
         if any(a > b for a, b in zip(starts, starts[1:])):
             return True
+        for k, (is_comment, p) in enumerate(e["l"][:-1]):
+            if is_comment and p[0] == 0 and b"\n" in data[p[1]:p[2]]:
+                return True
     return False
 
 
@@ -446,7 +471,11 @@ WITNESS_JOBS = [
     ({"rules": [{"rule": "append_text_comment", "text": "x", "location": "end"}]}, "local a = M1;\n"),
     ({"rules": ["remove_unused_variable"]}, "--[[ b\nb2\nb3\n]]\n-- c\nlocal unused = 1\nprint(M9)\n"),
     ({"rules": ["remove_unused_if_branch"]}, "if nil then\n M1()\nelseif M2 then M3() else M4() end\nM5()\n"),
+    # two removed statements in a row, a comment spanning lines in front, remove_comments AFTER the removal
+    ({"rules": ["remove_unused_variable", "remove_comments"]},
+     "--[=[ a\n]=]\n\nlocal unused1 -- after\n\n\n-- a\n-- b\nlocal unused2\nM1()\nM2()\n"),
     ({"rules": ["remove_spaces", "remove_compound_assignment"]}, "print(M1)\n-- c\nt[g()] *= M2\nM3()\n"),
+    ({"rules": ["remove_compound_assignment"]}, "print(M1)\nt[ [==[\n]==] ] *= M2\nM3()\n"),
     # the regressions the coordinator seeded (must stay on their lines on the unchanged tree)
     ({"rules": ["remove_compound_assignment"]}, "stats.totals.label -- c\n  ..= 'M3'\nprint(M4)\n"),
     ({"rules": ["remove_spaces", "remove_compound_assignment"]}, "a.b.c -- c\n+= M3\nM4()\n"),
@@ -991,9 +1020,16 @@ def classify_problem(c, s, out):
     if removers and not ("remove_comments" in names and names.index("remove_comments") < removers[0]):
         if multiline_comment_then_comment(s):
             return KEY_COMMENT_TRANSFER
-        rr = _run([{"id": 0, "config": json.dumps(c), "src": s, "trace": True}], crate="dl-c04")[0]
-        if rr["ok"] and transferred_comments_out_of_order(rr["trace"]):
-            return KEY_COMMENT_TRANSFER
+        # look at the write requests right after each statement-removing rule (a later remove_comments would hide
+        # the transferred comments but not the line breaks re-created between them)
+        rules = c.get("rules", DEFAULT_RULES)
+        for ri in removers:
+            prefix = dict(c, rules=list(rules[:ri + 1]))
+            rr = _run([{"id": 0, "config": json.dumps(prefix), "src": s, "trace": True}], crate="dl-c04")[0]
+            if rr["ok"] and transferred_comments_out_of_order(rr["trace"], s):
+                return KEY_COMMENT_TRANSFER
+    if "remove_compound_assignment" in names and compound_target_spans_lines(s):
+        return KEY_COMPOUND_MULTILINE
     if "remove_compound_assignment" in names and compound_index_key_hoisted(s, "remove_spaces" in names[:1]):
         return KEY_COMPOUND_KEY
     culprit = culprit_rule(c, s)
